@@ -59,11 +59,11 @@ PROPS = {
         trusted=CODEC_TRUST + ["Model.Stream hand-written from message.go readHeader/readBody and io.ReadFull's contract"],
     ),
     "C07": dict(
-        domains=[("retry", "write", 6000, 100000), ("retry", "exhaustive", 900, 900), ("conn", "cwrite", 150, 1500)],
+        domains=[("retry", "write", 6000, 100000), ("retry", "exhaustive", 900, 900), ("retry", "conn", 1500, 20000), ("conn", "cwrite", 150, 1500), ("conn", "lw", 200, 2000)],
         relevant=["C07:"],
-        theorems=["DV.Props.C07."+t for t in ["C07_retry","C07_retry_stops","C07_whole","C07_exclusive","C07_once_ordered","C07_quiescent","C07_gen"]],
-        gen_obligations=["Gen.responseWriteLocked","Gen.MessageBufferLength"],
-        trusted=["Model.Retry hand-written from message.go writeRetry/writeStreamRetry; Model.Writers: LTS of response.Write (server.go)"],
+        theorems=["DV.Props.C07."+t for t in ["C07_retry","C07_retry_stops","C07_retry_conn","C07_failed_write_is_final","C07_conn_next","C07_whole","C07_exclusive","C07_once_ordered","C07_quiescent","C07_gen"]],
+        gen_obligations=["Gen.responseWriteLocked","Gen.MessageBufferLength","Gen.responseWriteReturns","Gen.serverResetCalls","Gen.connBufferSources"],
+        trusted=["Model.Retry hand-written from message.go writeRetry/writeStreamRetry; Model.Writers: LTS of response.Write (server.go); Model.Bufio: response.Write over bufio.Writer (Write / Flush / sticky error as in the Go standard library, buffer size 4096 of bufio.NewWriter - modelled, not verified)"],
     ),
     "C09": dict(
         domains=[("mux", "subsets", 6144, 24576), ("mux", "random", 6000, 100000), ("mux", "seq", 4000, 60000)],
@@ -94,10 +94,10 @@ PROPS = {
         trusted=["Model.SM hand-written from diam/sm/cer.go and smparser (CER.Parse, Application.Parse, chooseErr, handleGroup, validate); getLocalAddresses as a table over the harness' endpoint menu"],
     ),
     "C16": dict(
-        domains=[("codec", "answer", 6000, 100000), ("smserver", "hist", 800, 10000), ("smserver", "cer", 800, 10000), ("sctp", "serve", 300, 4000)],
+        domains=[("codec", "answer", 6000, 100000), ("smserver", "hist", 800, 10000), ("smserver", "cer", 800, 10000), ("sctp", "serve", 300, 4000), ("sctp", "canswer", 120, 1500)],
         relevant=["C16:"],
-        theorems=['DV.Props.C16.C16_answer_ids', 'DV.Props.C16.C16_answer_flags', 'DV.Props.C16.C16_answer_result_code', 'DV.Props.C16.C16_answer_stream', 'DV.Props.C16.C16_sctp_stream', 'DV.Props.C16.C16_answer_len', 'DV.Props.C16.C16_gen', 'DV.Props.C16.C16_cea', 'DV.Props.C16.C16_dwa'],
-        gen_obligations=['Gen.RequestFlag', 'Gen.InvalidStreamID', 'Gen.Mbit'],
+        theorems=['DV.Props.C16.C16_answer_ids', 'DV.Props.C16.C16_answer_flags', 'DV.Props.C16.C16_answer_result_code', 'DV.Props.C16.C16_answer_stream', 'DV.Props.C16.C16_sctp_stream', 'DV.Props.C16.C16_answer_len', 'DV.Props.C16.C16_gen', 'DV.Props.C16.C16_cea', 'DV.Props.C16.C16_dwa', 'DV.Props.C16.C16_concurrent_streams', 'DV.Props.C16.C16_select_then_write_counterexample'],
+        gen_obligations=['Gen.RequestFlag', 'Gen.InvalidStreamID', 'Gen.Mbit', 'Gen.responseWriteStreamExits'],
         trusted=CODEC_TRUST,
     ),
     "C20": dict(
@@ -124,12 +124,13 @@ PROPS = {
         trusted=CONN_TRUST,
     ),
     "C15": dict(
-        domains=[("conn", "faults", 500, 6000), ("conn", "faults2", 300, 4000), ("conn", "multi", 300, 4000), ("conn", "accept", 60, 600)],
+        domains=[("conn", "faults", 500, 6000), ("conn", "faults2", 300, 4000), ("conn", "multi", 300, 4000), ("conn", "accept", 60, 600), ("conn", "lw", 300, 4000)],
         thorough_extra=[("conn", "cnall5", 1, 1)],
         relevant=["C15:"],
-        theorems=["DV.Props.C15."+t for t in ["C15_panic_contained","C15_bad_input_contained","C15_one_report","C15_fault_cleanup","C15_frame","C15_mux_lock","C15_mux_lock_needs_defer","C15_listener","C15_listener_perm","C15_gen"]],
-        gen_obligations=["Gen.serveDeferRecover","Gen.serveDeferClose","Gen.serveDeferNotify","Gen.muxServeRLockDeferred","Gen.acceptRetryCond","Gen.acceptBackoffFirstMs","Gen.acceptBackoffFactor","Gen.acceptBackoffMaxMs","Gen.acceptResetsDelay","Gen.acceptSpawnsServe","Gen.serveDefersListenerClose","Gen.capErrorReports"],
-        trusted=CONN_TRUST + ["Model.Listener hand-written from Server.Serve's accept loop; back-off constants regenerated"],
+        theorems=["DV.Props.C15."+t for t in ["C15_panic_contained","C15_bad_input_contained","C15_one_report","C15_fault_cleanup","C15_frame","C15_mux_lock","C15_mux_lock_needs_defer","C15_listener","C15_listener_perm","C15_write_contained","C15_late_write_fails","C15_write_needs_own_writer","C15_gen"]],
+        gen_obligations=["Gen.serveDeferRecover","Gen.serveDeferClose","Gen.serveDeferNotify","Gen.muxServeRLockDeferred","Gen.acceptRetryCond","Gen.acceptBackoffFirstMs","Gen.acceptBackoffFactor","Gen.acceptBackoffMaxMs","Gen.acceptResetsDelay","Gen.acceptSpawnsServe","Gen.serveDefersListenerClose","Gen.capErrorReports","Gen.connBufferSources"],
+        trusted=CONN_TRUST + ["Model.Listener hand-written from Server.Serve's accept loop; back-off constants regenerated",
+                              "Model.ConnWrite: writer objects and the transports they point at (Server.newConn, response.Write); that each connection allocates its own bufio.Writer is the regenerated fact Gen.connBufferSources"],
     ),
     "C06": dict(
         domains=[("alias", "leaf", 4000, 60000), ("alias", "hist", 1500, 20000)],
